@@ -2089,7 +2089,7 @@ fn do_render_node<T: Write, D: TextDecorator>(
             // The prefix width could be at either end if the start is negative.
             let min_number = start;
             // Assumption: num_items can't overflow isize.
-            let max_number = start + (num_items as i64) - 1;
+            let max_number = start.saturating_add(num_items as i64).saturating_sub(1);
             let prefix_width_min = renderer.ordered_item_prefix(min_number).width();
             let prefix_width_max = renderer.ordered_item_prefix(max_number).width();
             let prefix_width = max(prefix_width_min, prefix_width_max);
@@ -2119,7 +2119,7 @@ fn do_render_node<T: Write, D: TextDecorator>(
                         sub_builder,
                         once(prefix1.as_str()).chain(repeat(prefixn.as_str())),
                     )?;
-                    i.set(i.get() + 1);
+                    i.set(i.get().saturating_add(1));
                     Ok(())
                 })),
             }
@@ -2857,7 +2857,7 @@ fn calc_ol_prefix_size<D: TextDecorator>(start: i64, num_items: usize, decorator
     // The prefix width could be at either end if the start is negative.
     let min_number = start;
     // Assumption: num_items can't overflow isize.
-    let max_number = start + (num_items as i64) - 1;
+    let max_number = start.saturating_add(num_items as i64).saturating_sub(1);
 
     // This assumes that the decorator gives the same width as default.
     let prefix_width_min = decorator.ordered_item_prefix(min_number).width();
